@@ -105,6 +105,7 @@ type Frame struct {
 	callStack []string
 	resultNames []string
 	resultTypes []types.Type
+	recMeasure []T // entry value of the top-level function's recursion measure (function-level `decreases`)
 	frameHook func(cur *Frame, lv *LV, addr ssa.Value, pos token.Pos)
 	frameMapHook func(cur *Frame, mv ssa.Value, m T, mt *types.Map, pos token.Pos)
 	frameAppendHook func(cur *Frame, arr string, s T, pos token.Pos)
